@@ -390,8 +390,10 @@ def pollScan (st : St) : St :=
 /-- Number of entries with something to report. -/
 def pollCount (st : St) : Nat := ((pollScan st).pfd.filter fun s => s.revents ≠ some 0).length
 
-/-- Signals the harness raises from inside its `ppoll` (they are still blocked at that point). -/
-def pollRaise (st : St) : St := st.inpoll.foldl raiseSig { st with inpoll := [] }
+/-- Signals the harness raises from inside its `ppoll`: it keeps them blocked until the kernel looks (the real
+    zero-timeout `ppoll` under the loop's mask, or the return from the call) — a standard signal raised twice
+    meanwhile is delivered once. -/
+def pollRaise (st : St) : St := st.inpoll.eraseDups.foldl raiseSig { st with inpoll := [] }
 
 /-- The harness's `ppoll` in this configuration (hypothesis `OsPpoll`): ready descriptors are reported before signals
     are looked at (a signal that arrived meanwhile is acted upon when the call has returned); otherwise a signal
